@@ -432,7 +432,7 @@ impl Property for C20 {
         true
     }
     fn rule(&self) -> &'static str {
-        "A scenario = the real jawk executable (release build of the working tree, guard off) run as child processes on a generated clean or noisy stream (occasionally > 16 KiB of output) x one of the four --on-error policies x a pipeline of any class x row separators with and without a newline x {valid configuration, configuration rejected by go, configuration rejected by clap}, with stdin/stdout/stderr on regular files in /dev/shm. Families: 'valid'/'invalid' (fault-free child vs in-process jawk::go for the same argv and input: fd 1 must carry exactly go's stdout sink, fd 2 exactly go's stderr sink plus, on failure, a message; exit status 0 iff go returned Ok); 'read-fault' / 'write-fault' / 'err-fault' (LD_PRELOAD shim fails read(0) / write(1) / write(2) at a seeded byte offset with EIO, ENOSPC, EPIPE, EAGAIN, EACCES..., sticky or recovering, after seeded EINTR and short transfers); 'transparent' (EINTR/short only); 'preset' (/dev/full, a pipe whose read end is closed, a pipe drained by the harness). evaluations = child processes + in-process reference runs; non-trivial = a planned fault was delivered according to the shim's own event log, or diagnostics/rows had to be routed (noisy stream under stderr/stdout policy), or a hostile preset sink received output; distinct = distinct abstract traces (shim event kinds per fd, exit class, preset)."
+        "A scenario = the real jawk executable (release build of the working tree, guard off) run as child processes on a generated clean or noisy stream (occasionally > 16 KiB of output) x one of the four --on-error policies x a pipeline of any class x row separators with and without a newline x {valid configuration, configuration rejected by go, configuration rejected by clap}, with stdin/stdout/stderr on regular files in /dev/shm. Families: 'valid'/'invalid' (fault-free child vs in-process jawk::go for the same argv and input: fd 1 must carry exactly go's stdout sink, fd 2 exactly go's stderr sink plus, on failure, a message; exit status 0 iff go returned Ok); 'read-fault' / 'write-fault' / 'err-fault' (LD_PRELOAD shim fails read(0) / write(1) / write(2) at a seeded byte offset with EIO, ENOSPC, EPIPE, EAGAIN, EACCES..., sticky or recovering, after seeded EINTR and short transfers); 'transparent' (EINTR/short only); 'preset' (/dev/full, a pipe whose read end is closed, a pipe drained by the harness); 'file-read-fault' (1..3 real file arguments, optionally behind a directory argument, read(2) on one of them failing at a seeded offset: the shim interposes open/openat); 'stdin-preset' (fd 0 closed or a directory); 'stderr-preset' (/dev/full or closed pipe as standard error); 'missing-file'; 'info' (--version/--help); every child has a non-UTF-8 environment variable; invalid configurations also run with an unwritable standard error; noise is no failure (same configuration on the garbage-free stream). evaluations = child processes + in-process reference runs; non-trivial = a planned fault was delivered according to the shim's own event log, or diagnostics/rows had to be routed (noisy stream under stderr/stdout policy), or a hostile preset sink received output; distinct = distinct abstract traces (shim event kinds per fd, exit class, preset)."
     }
     fn assumptions(&self) -> Vec<String> {
         vec![
